@@ -1,9 +1,63 @@
 import DspVerif.Driver.Proto
-/-! driver handlers for C13 (stub: no correspondence cases handled yet) -/
+import DspVerif.Model.Spectrum
+/-! driver handlers for C13: `welch` (real / complex, both scalings, explicit and default overloads), the two frequency axes,
+`mscohere` — the models of `Model/Spectrum.lean` run at `Float` on top of C01's transform model -/
 namespace Dsp.Driver
-open Dsp.Proto
+open Dsp.Proto Dsp.Fft Dsp.Spectrum
+
+/-- the literals of the small kernels as written in the source (regenerated) -/
+def lits13 : Lits Float := ⟨Gen.fft8_c0, Gen.rfft8_c0, Gen.dft3_c0⟩
+
+def fftR13 (n : Nat) (x : Array Float) : Array (Cx Float) := fftRN lits13 n x
+def fftC13 (n : Nat) (x : Array (Cx Float)) : Array (Cx Float) := fftCN lits13 n x
+
+def outArr : Except String (Array Float) → String
+  | .ok a => fmtFloatArr a
+  | .error _ => "ERR"
 
 def h13 : List String → Option String
+  | "wR" :: psd :: nov :: nfft :: rest => do
+    let psd ← psd.toNat?
+    let nov ← parseI nov
+    let nfft ← parseI nfft
+    let (x, rest) ← takeFloats rest
+    let (w, _) ← takeFloats rest
+    some (outArr ((welchR fftR13 x w nov nfft (psd == 1)).map (·.1)))
+  | "wC" :: psd :: nov :: nfft :: rest => do
+    let psd ← psd.toNat?
+    let nov ← parseI nov
+    let nfft ← parseI nfft
+    let (x, rest) ← takeCxs rest
+    let (w, _) ← takeFloats rest
+    some (outArr ((welchC fftC13 x w nov nfft (psd == 1)).map (·.1)))
+  | "wRd" :: psd :: rest => do
+    let psd ← psd.toNat?
+    let (x, rest) ← takeFloats rest
+    let (w, _) ← takeFloats rest
+    some (outArr ((welchRDefault fftR13 x w (psd == 1)).map (·.1)))
+  | "wCd" :: psd :: rest => do
+    let psd ← psd.toNat?
+    let (x, rest) ← takeCxs rest
+    let (w, _) ← takeFloats rest
+    some (outArr ((welchCDefault fftC13 x w (psd == 1)).map (·.1)))
+  | "fR" :: nfft :: _ => do
+    let nfft ← nfft.toNat?
+    some (fmtFloatArr (freqR nfft))
+  | "fC" :: nfft :: _ => do
+    let nfft ← nfft.toNat?
+    some (fmtFloatArr (freqC nfft))
+  | "coh" :: nov :: nfft :: rest => do
+    let nov ← parseI nov
+    let nfft ← parseI nfft
+    let (x, rest) ← takeFloats rest
+    let (y, rest) ← takeFloats rest
+    let (w, _) ← takeFloats rest
+    some (outArr (mscohere fftR13 x y w nov nfft))
+  | "cohd" :: rest => do
+    let (x, rest) ← takeFloats rest
+    let (y, rest) ← takeFloats rest
+    let (w, _) ← takeFloats rest
+    some (outArr (mscohereDefault fftR13 x y w))
   | _ => none
 
 end Dsp.Driver
